@@ -111,3 +111,7 @@ def cases(tier, seed, ctx=None):
             reqs.append([1, late, []])
             reqs += [[rng.choice([b"inside.txt", b"sub/deep.txt", b"", b"@BASEREL@/SECRET", b"nosuch"]), []] for _ in range(rng.range(1, 4))]
         yield ("fsm", [tree0, rng.choice([b"@BASE@/late", b"@BASE@/late/", b"@CWD@/late"]), reqs, ver, [7]], "root-created-later")
+    # the same canaries asked for with other methods (HEAD, OPTIONS, POST): the containment does not depend on the method
+    for m in (b"HEAD", b"OPTIONS", b"POST"):
+        for p in (b"../SECRET", b"%2e%2e/SECRET", b"@BASE@/SECRET", b"%2F@BASE@/p/SECRET2", b"../root2/x", b"a.txt", b"sub/b.txt", b"..%2f..%2fSECRET"):
+            yield ("fs", [TREE, rng.choice(ROOTS), p, [[b":method", m]], ver, [7]], "other-methods")
